@@ -225,7 +225,25 @@ func c06Run(r *Run) {
 				}
 				for _, l := range as.Lhs {
 					se, ok := ast.Unparen(l).(*ast.SelectorExpr)
-					if !ok || se.Sel.Name != "Value" || !isZ(info.TypeOf(se.X)) {
+					if !ok || (se.Sel.Name != "Value" && se.Sel.Name != "Name") || !isZ(info.TypeOf(se.X)) {
+						continue
+					}
+					if se.Sel.Name == "Name" {
+						// the key of a cell is part of what an array copy shares: renaming a slot-list cell in
+						// place re-keys every copy of the array
+						og := exprOrigin(se.X)
+						cell := strings.ReplaceAll(exprStr(se.X), " ", "")
+						key := fk + "#cell-rename:" + cell
+						if og == oList && c06FreshArrayCell(info, fd, se.X) {
+							r.ok(key, as.Pos(), "the cell belongs to an array built in this function")
+							continue
+						}
+						switch {
+						case og == oList && guardedAt[as.Pos()]:
+							r.ok(key, as.Pos(), "in-place change of a slot-list cell's key only where RefSlotCount > 0 (explicit reference)")
+						case og == oList:
+							r.bad(key, as.Pos(), "changes the key (Name) of a cell taken from an array's slot list in place: every copy of the array that shares the cell is re-keyed too")
+						}
 						continue
 					}
 					og := exprOrigin(se.X)
@@ -492,7 +510,11 @@ func c06Run(r *Run) {
 			continue
 		}
 		if clonesValue(p, fd, param) {
-			r.ok(key, fd.Pos(), "an *ArrayValue placed into this container is copied first")
+			if pos, what := c06EarlyStore(p, fd, param, isArr, copySource); pos.IsValid() {
+				r.bad(key, pos, "on this path the value is stored ("+what+") before the copy of an *ArrayValue has been made (a fast path in front of the copying code): the container and the source share one array object")
+			} else {
+				r.ok(key, fd.Pos(), "an *ArrayValue placed into this container is copied first, on every path that stores it in this function")
+			}
 		} else {
 			r.bad(key, fd.Pos(), "stores the value it is given without copying an *ArrayValue: the container and the source keep sharing one array object, so append/unset/sort through one name shows through the other")
 		}
@@ -826,7 +848,7 @@ func c06GuardedWrites(info *types.Info, fd *ast.FuncDecl, preds map[*types.Func]
 			return st
 		}
 		for _, l := range as.Lhs {
-			if se, ok := ast.Unparen(l).(*ast.SelectorExpr); ok && se.Sel.Name == "Value" {
+			if se, ok := ast.Unparen(l).(*ast.SelectorExpr); ok && (se.Sel.Name == "Value" || se.Sel.Name == "Name") {
 				v := g[exprStr(se.X)]
 				if seen[as.Pos()] {
 					out[as.Pos()] = out[as.Pos()] && v
@@ -865,4 +887,250 @@ func c06ResultUsed(fd *ast.FuncDecl, call *ast.CallExpr) bool {
 		return true
 	})
 	return used
+}
+
+// c06EarlyStore: a path on which the sink stores its value parameter before the copy. The copy is made
+// when the parameter is reassigned from a copier (value = CloneArrayValue(av) / value = helper(value));
+// on the branches where a type test shows that the value is not an *ArrayValue nothing has to be copied.
+// Stores: a field/element assignment whose right side is the parameter, a cell constructor given the
+// parameter, a call on storage rooted at the receiver that receives the parameter. Handing the value on
+// to another sink (an interface method on something else) is not a store of this function.
+func c06EarlyStore(p *packages.Package, fd *ast.FuncDecl, param types.Object, isArr func(types.Type) bool,
+	copySource func(*types.Info, *ast.CallExpr) ast.Expr) (token.Pos, string) {
+	info := p.TypesInfo
+	var recv types.Object
+	if fd.Recv != nil && len(fd.Recv.List) == 1 && len(fd.Recv.List[0].Names) == 1 {
+		recv = info.Defs[fd.Recv.List[0].Names[0]]
+	}
+	type st struct{ safe bool }
+	okVar := map[types.Object]bool{} // ok of `x, ok := value.(*ArrayValue)`
+	var bad token.Pos
+	what := ""
+	isParam := func(e ast.Expr) bool {
+		id, ok := ast.Unparen(e).(*ast.Ident)
+		return ok && info.Uses[id] == param
+	}
+	rootedAtRecv := func(e ast.Expr) bool {
+		for {
+			switch x := ast.Unparen(e).(type) {
+			case *ast.SelectorExpr:
+				e = x.X
+			case *ast.IndexExpr:
+				e = x.X
+			case *ast.Ident:
+				return recv != nil && info.Uses[x] == recv
+			default:
+				return false
+			}
+		}
+	}
+	flag := func(s *st, pos token.Pos, w string) {
+		if !s.safe && !bad.IsValid() {
+			bad, what = pos, w
+		}
+	}
+	// default clauses of type switches that have an arm for the array type
+	armsNameArray := map[*ast.CaseClause]bool{}
+	ast.Inspect(fd.Body, func(n ast.Node) bool {
+		ts, ok := n.(*ast.TypeSwitchStmt)
+		if !ok {
+			return true
+		}
+		names := false
+		for _, c := range ts.Body.List {
+			for _, t := range c.(*ast.CaseClause).List {
+				if tv, ok := info.Types[t]; ok && tv.IsType() && isArr(tv.Type) {
+					names = true
+				}
+			}
+		}
+		if names {
+			for _, c := range ts.Body.List {
+				if cc := c.(*ast.CaseClause); cc.List == nil {
+					armsNameArray[cc] = true
+				}
+			}
+		}
+		return true
+	})
+	h := &Hooks{Info: info}
+	h.Copy = func(s State) State { c := *s.(*st); return &c }
+	h.Join = func(a, b State) State { return &st{a.(*st).safe && b.(*st).safe} }
+	h.Equal = func(a, b State) bool { return *a.(*st) == *b.(*st) }
+	h.Cond = func(e ast.Expr, truth bool, s State) State {
+		if id, ok := ast.Unparen(e).(*ast.Ident); ok && okVar[info.Uses[id]] && !truth {
+			s.(*st).safe = true // not an array: nothing to copy
+		}
+		return s
+	}
+	h.TypeCase = func(x ast.Expr, bind *ast.Ident, cc *ast.CaseClause, s State) State {
+		if x == nil || !isParam(x) {
+			return s
+		}
+		arrayArm := false
+		for _, t := range cc.List {
+			if tv, ok := info.Types[t]; ok && tv.IsType() && isArr(tv.Type) {
+				arrayArm = true
+			}
+		}
+		if !arrayArm {
+			// an arm for another kind of value; the default arm only when some other arm takes the arrays
+			if cc.List != nil || armsNameArray[cc] {
+				s.(*st).safe = true
+			}
+		}
+		return s
+	}
+	h.TypeMiss = func(x ast.Expr, sw *ast.TypeSwitchStmt, s State) State {
+		if x == nil || !isParam(x) {
+			return s
+		}
+		// no arm matched: if some arm names the array type, the value is not an array here
+		for _, c := range sw.Body.List {
+			for _, t := range c.(*ast.CaseClause).List {
+				if tv, ok := info.Types[t]; ok && tv.IsType() && isArr(tv.Type) {
+					s.(*st).safe = true
+				}
+			}
+		}
+		return s
+	}
+	h.Stmt = func(stm ast.Stmt, s State) State {
+		x := s.(*st)
+		as, ok := stm.(*ast.AssignStmt)
+		if !ok {
+			return s
+		}
+		// x, ok := value.(*ArrayValue)
+		if len(as.Lhs) == 2 && len(as.Rhs) == 1 {
+			if ta, ok := ast.Unparen(as.Rhs[0]).(*ast.TypeAssertExpr); ok && ta.Type != nil && isParam(ta.X) && isArr(info.TypeOf(ta.Type)) {
+				if id, ok := as.Lhs[1].(*ast.Ident); ok {
+					if o := info.Defs[id]; o != nil {
+						okVar[o] = true
+					} else if o := info.Uses[id]; o != nil {
+						okVar[o] = true
+					}
+				}
+			}
+		}
+		for i, l := range as.Lhs {
+			if i >= len(as.Rhs) {
+				break
+			}
+			if isParam(l) {
+				// value = copier(...)
+				if c, ok := ast.Unparen(as.Rhs[i]).(*ast.CallExpr); ok {
+					if copySource(info, c) != nil {
+						x.safe = true
+						continue
+					}
+					// a copying helper: value = helper(value)
+					for _, a := range c.Args {
+						if isParam(a) {
+							x.safe = true
+						}
+					}
+				}
+				continue
+			}
+			if _, plain := ast.Unparen(l).(*ast.Ident); !plain && isParam(as.Rhs[i]) {
+				flag(x, as.Pos(), "assigned to "+exprStr(l))
+			}
+		}
+		return s
+	}
+	h.Visit = func(e ast.Expr, s State) State {
+		c, ok := e.(*ast.CallExpr)
+		if !ok {
+			return s
+		}
+		x := s.(*st)
+		hasParam := false
+		for _, a := range c.Args {
+			if isParam(a) {
+				hasParam = true
+			}
+		}
+		if !hasParam || copySource(info, c) != nil {
+			return s
+		}
+		if f, ok := calleeOf(info, c).(*types.Func); ok && f.Pkg() != nil && f.Pkg().Path() == modPath+"/data" && (f.Name() == "NewZVal" || f.Name() == "NewNamedZVal") {
+			flag(x, c.Pos(), "wrapped into a new cell by "+f.Name())
+			return s
+		}
+		if se, ok := ast.Unparen(c.Fun).(*ast.SelectorExpr); ok {
+			if inner, ok := ast.Unparen(se.X).(*ast.SelectorExpr); ok && rootedAtRecv(inner) {
+				// c.property.Set(name, value): storage held by the receiver
+				if _, isField := info.Selections[inner]; isField {
+					flag(x, c.Pos(), "handed to "+exprStr(c.Fun))
+				}
+			}
+		}
+		return s
+	}
+	WalkFunc(h, fd.Body, &st{})
+	return bad, what
+}
+
+// c06FreshArrayCell: e is X.List[i] where X is a local that holds an array constructed in this function
+// (data.NewArrayValue(...) or a copier): its cells are not shared with anybody yet.
+func c06FreshArrayCell(info *types.Info, fd *ast.FuncDecl, e ast.Expr) bool {
+	ix, ok := ast.Unparen(e).(*ast.IndexExpr)
+	if !ok {
+		return false
+	}
+	se, ok := ast.Unparen(ix.X).(*ast.SelectorExpr)
+	if !ok || se.Sel.Name != "List" {
+		return false
+	}
+	base := ast.Unparen(se.X)
+	for {
+		if ta, ok := base.(*ast.TypeAssertExpr); ok {
+			base = ast.Unparen(ta.X)
+			continue
+		}
+		break
+	}
+	id, ok := base.(*ast.Ident)
+	if !ok {
+		return false
+	}
+	obj := info.Uses[id]
+	n, fresh := 0, true
+	ast.Inspect(fd.Body, func(m ast.Node) bool {
+		as, ok := m.(*ast.AssignStmt)
+		if !ok {
+			return true
+		}
+		for i, l := range as.Lhs {
+			lid, ok := l.(*ast.Ident)
+			if !ok || (info.Defs[lid] != obj && info.Uses[lid] != obj) {
+				continue
+			}
+			n++
+			if len(as.Rhs) != len(as.Lhs) {
+				fresh = false
+				continue
+			}
+			rhs := ast.Unparen(as.Rhs[i])
+			for {
+				if ta, ok := rhs.(*ast.TypeAssertExpr); ok {
+					rhs = ast.Unparen(ta.X)
+					continue
+				}
+				break
+			}
+			c, ok := rhs.(*ast.CallExpr)
+			if !ok {
+				fresh = false
+				continue
+			}
+			f, _ := calleeOf(info, c).(*types.Func)
+			if f == nil || !(strings.HasPrefix(f.Name(), "NewArrayValue") || (c06IsCopierCall != nil && c06IsCopierCall(info, c))) {
+				fresh = false
+			}
+		}
+		return true
+	})
+	return n > 0 && fresh
 }
